@@ -495,7 +495,7 @@ struct Multi {
     virtual void erase() = 0;
     virtual void consolidate() = 0;
     virtual void dump(int fd) = 0;
-    virtual std::vector<V> get_all(uint64_t id) = 0;
+    virtual std::vector<V> get_all(uint64_t id, int k) = 0;
 };
 
 template <typename C> void do_erase(C&, std::false_type) { throw vh::Mismatch(-1, "a class with erase_removed()", "none"); }
@@ -516,11 +516,11 @@ struct MultiImpl : Multi<V> {
     void erase() override { do_erase(c, std::integral_constant<bool, CanErase>{}); }
     void consolidate() override { c.consolidate(); }
     void dump(int fd) override { base().dump_as_list(fd); }
-    std::vector<V> get_all(uint64_t id) override {
+    std::vector<V> get_all(uint64_t id, int k) override {
         std::vector<V> out;
         auto r = c.get_all(id);
         for (auto it = r.first; it != r.second; ++it) {
-            if (it->first != id) throw vh::Mismatch(-1, id, static_cast<uint64_t>(it->first), "get_all(): id of a pair in the range");
+            if (it->first != id) throw vh::Mismatch(k, id, static_cast<uint64_t>(it->first), "get_all(" + std::to_string(id) + "): id of a pair in the range");
             const V val = (*it).second;
             if (Raw && val == osmium::index::empty_value<V>()) continue;
             out.push_back(val);
@@ -612,7 +612,7 @@ static void run_multi_t(const json& c, const std::string& vname) {
                 std::vector<V> want;
                 for (const auto& v : pr[1]) want.push_back(real_val<V>(v));
                 std::sort(want.begin(), want.end());
-                const std::vector<V> got = m->get_all(id);
+                const std::vector<V> got = m->get_all(id, k);
                 if (got != want) throw vh::Mismatch(k, json(want), json(got), who + ": values of get_all(" + std::to_string(id) + ")");
             }
         }
